@@ -115,6 +115,7 @@ def run_shards(argv_fn, total, nworkers=None, env=None, first_index=0, hang_s=12
                         partial = rec
                         continue
                     if "run" in rec:
+                        rec.setdefault("proc_first", proc_first)
                         reported.add(rec["run"])
                         with lock:
                             stats["records"] += 1
